@@ -25,6 +25,7 @@ type sweep struct {
 	rng                     *rand.Rand
 	hdrReq                  int
 	hdrPub                  int
+	hdrAlone                map[string]int
 	canReq, canResp, canPub int
 	deltas                  []int
 	natsDs                  []int
@@ -59,6 +60,18 @@ func (s *sweep) each(leg, dir, mdir, shape string, L int, targets []int, fn func
 		}
 		seen[[2]int{bulk, fine}] = true
 		ci := caseInfo{Leg: leg, Proto: s.proto, Dir: dir, Shape: shape, Limit: L, Bulk: bulk, Fine: fine, Measured: got, Delta: got - L}
+		if shape == "headers-alone" {
+			// frame prefix + header block alone: the measured block of the same
+			// message with an empty big header, plus the header's value
+			h0 := s.hdrAlone[mdir]
+			if h0 == 0 {
+				h0 = s.m.headerBlockOf(mdir)
+				s.hdrAlone[mdir] = h0
+			}
+			if h0+bulk+fine <= L {
+				ci.Class = "headers-plus-message"
+			}
+		}
 		s.run.Eval(1)
 		s.run.Distinct(ci.key())
 		if ci.Delta >= -1 && ci.Delta <= 1 {
@@ -215,7 +228,7 @@ func main() {
 				return
 			}
 			defer m.stop()
-			s := &sweep{run: run, proto: proto, m: m, rng: run.Rand("sweep-" + proto)}
+			s := &sweep{run: run, proto: proto, m: m, rng: run.Rand("sweep-" + proto), hdrAlone: map[string]int{}}
 			s.hdrReq = m.headerBytes("req")
 			s.hdrPub = m.headerBytes("pub")
 			s.canReq, s.canResp, s.canPub = m.canarySizes()
@@ -225,8 +238,8 @@ func main() {
 				s.natsReq, s.natsRsp, s.natsPub = reqShapes, respShapes, pubShapes
 			} else {
 				s.natsDs = []int{-1, 0, 1, 3, 5000}
-				s.natsReq = []string{"first", "last", "tag"}
-				s.natsRsp = []string{"first", "last", "getbig"}
+				s.natsReq = []string{"first", "last", "tag", "headers-alone"}
+				s.natsRsp = []string{"first", "last", "getbig", "headers-alone"}
 				s.natsPub = []string{"mid", "last"}
 			}
 			for _, L := range limits {
@@ -234,7 +247,7 @@ func main() {
 			}
 			// every residue of the limit modulo 3 (base64 groups)
 			for _, L := range []int{1000, 1001, 1002, 4096} {
-				s.httpResponse(L, []string{"getbig", "first", "last"})
+				s.httpResponse(L, []string{"getbig", "first", "last", "headers-alone"})
 				s.sharedHandler(L)
 				s.serverSideLimit(L)
 			}
